@@ -2,6 +2,7 @@ package main
 
 import (
 	"fmt"
+	"os"
 	"go/token"
 	"strings"
 
@@ -204,9 +205,9 @@ func ruleNaNSelection(w *World, r *RuleResult) {
 	}
 	forms := w.formConsts()
 	sn, qn := forms["NaNSignaling"], forms["NaN"]
-	cc := w.conditionConsts()
-	paths, ok := enumPaths(f, 4096)
+	inv := w.conditionConsts()["InvalidOperation"]
 	key := "(*Context).setAsNaN | selection order and signaling"
+	paths, ok := enumPaths(f, 8192)
 	if !ok {
 		r.undecided(key, w.pos(f.Pos()), "not loop-free")
 		return
@@ -216,133 +217,164 @@ func ruleNaNSelection(w *World, r *RuleResult) {
 		r.anchorMissing("(*Context).setAsNaN params x,y")
 		return
 	}
+	px, py := ssa.Value(f.Params[xi]), ssa.Value(f.Params[yi])
+	// finite domain: the Form of x and of y is only ever compared with constants
+	type asg struct {
+		xf, yf int64 // sn, qn or -1 (any other form)
+		ynil   bool
+	}
 	var bad []string
 	checked := 0
-	for _, p := range paths {
-		// facts: Form(x)==k / Form(y)==k with truth, and y != nil
-		known := map[string]bool{}
-		has := map[string]bool{}
-		for _, d := range p.Decisions {
-			bo, ok := d.Cond.(*ssa.BinOp)
-			if !ok || (bo.Op != token.EQL && bo.Op != token.NEQ) {
-				continue
-			}
-			val := d.Val
-			if bo.Op == token.NEQ {
-				val = !val
-			}
-			e := w.exprOf(f, bo.X).String()
-			k, isK := bo.Y.(*ssa.Const)
-			if !isK {
-				continue
-			}
-			if k.IsNil() {
-				continue
-			}
-			fact := fmt.Sprintf("%s==%d", e, ci(k))
-			known[fact] = val
-			has[fact] = true
-		}
-		// which value is copied on this path?
-		var src ssa.Value
-		for _, b := range p.Blocks {
-			for _, in := range b.Instrs {
-				if c, ok := in.(*ssa.Call); ok && w.calleeName(c) == "(*Decimal).Set" {
-					src = phiOnPath(c.Common().Args[1], p)
+	for _, xf := range []int64{sn, qn, -1} {
+		for _, ynil := range []bool{true, false} {
+			for _, yf := range []int64{sn, qn, -1} {
+				if ynil && yf != -1 {
+					continue
 				}
-			}
-		}
-		if src == nil {
-			continue // the "no NaN found" error path
-		}
-		checked++
-		is := func(who string, form int64) (bool, bool) {
-			k := fmt.Sprintf("%s.Form==%d", who, form)
-			return known[k], has[k]
-		}
-		xs, hxs := is("x", sn)
-		ys, _ := is("y", sn)
-		xq, _ := is("x", qn)
-		switch src {
-		case ssa.Value(f.Params[xi]):
-			if !(xs && hxs) {
-				// quiet x chosen: neither may be signaling
-				if v, h := is("x", sn); !h || v {
-					bad = append(bad, "x chosen without having excluded/established its form")
-				}
-				if v, h := is("y", sn); h && v {
-					bad = append(bad, "quiet x chosen although y is signaling")
-				}
-				if !xq {
-					bad = append(bad, "x chosen on a path where x is not known to be a NaN")
-				}
-			}
-		case ssa.Value(f.Params[yi]):
-			if v, h := is("x", sn); !h || v {
-				bad = append(bad, "y chosen before x's signaling test failed")
-			}
-			if !ys {
-				// quiet y: x must be known not quiet
-				if v, h := is("x", qn); !h || v {
-					bad = append(bad, "quiet y chosen although x may be a (quiet) NaN: first operand first")
-				}
-			}
-		default:
-			bad = append(bad, "setAsNaN copies something that is neither x nor y")
-		}
-		// flags: InvalidOperation iff source signaling; Form forced to NaN then
-		flags := phiOnPath(p.Ret.Results[0], p)
-		bits, isK := condBits(flags)
-		srcSignaling := (src == ssa.Value(f.Params[xi]) && xs) || (src == ssa.Value(f.Params[yi]) && ys)
-		// the nan.Form == NaNSignaling test after the copy
-		for _, d := range p.Decisions {
-			if bo, ok := d.Cond.(*ssa.BinOp); ok && bo.Op == token.EQL {
-				if k, ok := bo.Y.(*ssa.Const); ok && !k.IsNil() && ci(k) == sn {
-					if ld, ok := bo.X.(*ssa.UnOp); ok {
-						if fa, ok := ld.X.(*ssa.FieldAddr); ok && phiOnPath(fa.X, p) == src {
-							if d.Val != srcSignaling && has[fmt.Sprintf("%s.Form==%d", w.exprOf(f, src).String(), sn)] {
-								// infeasible path (contradictory facts): skip flag check
-								isK = false
-								srcSignaling = false
-								bits = 0
-								goto next
+				a := asg{xf, yf, ynil}
+				desc := fmt.Sprintf("x=%s y=%s", formName(xf, sn, qn), map[bool]string{true: "nil", false: formName(yf, sn, qn)}[ynil])
+				// evaluate a condition on a path under the assignment; ok=false when undecidable
+				eval := func(cond ssa.Value, p Path) (bool, bool) {
+					cond = phiOnPath(cond, p) // `a && b` used as a switch-true case is a φ of bools
+					if k, isK := cond.(*ssa.Const); isK && k.Value != nil {
+						return boolConst(k), true
+					}
+					bo, isB := cond.(*ssa.BinOp)
+					if !isB || (bo.Op != token.EQL && bo.Op != token.NEQ) {
+						return false, false
+					}
+					var res bool
+					switch {
+					case isNilConst(bo.Y) && phiOnPath(bo.X, p) == py:
+						res = a.ynil
+					default:
+						ld, isL := bo.X.(*ssa.UnOp)
+						k, isK := bo.Y.(*ssa.Const)
+						if !isL || !isK {
+							return false, false
+						}
+						fa, isFA := ld.X.(*ssa.FieldAddr)
+						if !isFA || w.exprOf(f, ld.X).Name != "Form" {
+							return false, false
+						}
+						var form int64
+						switch phiOnPath(fa.X, p) {
+						case px:
+							form = a.xf
+						case py:
+							if a.ynil {
+								return false, false // dereferencing nil: infeasible by construction
 							}
-							srcSignaling = d.Val
+							form = a.yf
+						default:
+							return false, false
+						}
+						res = form == ci(k)
+					}
+					if bo.Op == token.NEQ {
+						res = !res
+					}
+					return res, true
+				}
+				var hit *Path
+				for i := range paths {
+					p := paths[i]
+					feasible := true
+					for _, d := range p.Decisions {
+						v, known := eval(d.Cond, p)
+						if os.Getenv("APDLINT_DEBUG") != "" {
+							fmt.Fprintf(os.Stderr, "DBG %s path#%d cond=%s val=%v -> %v known=%v\n", desc, i, w.exprOf(f, d.Cond).String(), d.Val, v, known)
+						}
+						if !known {
+							// a dereference of nil y on an infeasible path, or a condition outside the domain
+							feasible = false
+							break
+						}
+						if v != d.Val {
+							feasible = false
+							break
+						}
+					}
+					if feasible {
+						if hit != nil {
+							bad = append(bad, desc+": more than one feasible path (condition outside the Form/nil domain)")
+						}
+						hit = &paths[i]
+					}
+				}
+				if hit == nil {
+					bad = append(bad, desc+": no feasible path could be evaluated")
+					continue
+				}
+				checked++
+				p := *hit
+				var src ssa.Value
+				quieted := false
+				for _, b := range p.Blocks {
+					for _, in := range b.Instrs {
+						if c, ok := in.(*ssa.Call); ok && w.calleeName(c) == "(*Decimal).Set" {
+							src = phiOnPath(c.Common().Args[1], p)
+						}
+						if st, ok := in.(*ssa.Store); ok && w.exprOf(f, st.Addr).String() == "&d.Form" {
+							if k, ok := st.Val.(*ssa.Const); ok && ci(k) == qn {
+								quieted = true
+							}
 						}
 					}
 				}
-			}
-		}
-		if isK {
-			if srcSignaling && bits != cc["InvalidOperation"] {
-				bad = append(bad, "a signaling NaN source does not raise exactly InvalidOperation")
-			}
-			if !srcSignaling && bits != 0 {
-				bad = append(bad, "a quiet NaN source raises a flag")
-			}
-		} else {
-			bad = append(bad, "returned flags are not a constant on an enumerated path")
-		}
-		if srcSignaling {
-			stored := false
-			for _, b := range p.Blocks {
-				for _, in := range b.Instrs {
-					if st, ok := in.(*ssa.Store); ok && w.exprOf(f, st.Addr).String() == "&d.Form" {
-						if k, ok := st.Val.(*ssa.Const); ok && ci(k) == qn {
-							stored = true
-						}
+				var want ssa.Value
+				wantSig := false
+				switch {
+				case a.xf == sn:
+					want, wantSig = px, true
+				case !a.ynil && a.yf == sn:
+					want, wantSig = py, true
+				case a.xf == qn:
+					want = px
+				case !a.ynil && a.yf == qn:
+					want = py
+				}
+				if want == nil {
+					if src != nil {
+						bad = append(bad, desc+": a value is copied although neither operand is a NaN")
 					}
+					continue
+				}
+				if src != want {
+					got := "nothing"
+					if src != nil {
+						got = w.exprOf(f, src).String()
+					}
+					bad = append(bad, fmt.Sprintf("%s: result is taken from %s, the rules require %s", desc, got, w.exprOf(f, want).String()))
+					continue
+				}
+				bits, isK := condBits(phiOnPath(p.Ret.Results[0], p))
+				if !isK {
+					bad = append(bad, desc+": returned flags are not a constant on the evaluated path")
+					continue
+				}
+				if wantSig && (bits != inv || !quieted) {
+					bad = append(bad, fmt.Sprintf("%s: a signaling NaN must give InvalidOperation and a quiet NaN result (flags %#x, quieted %v)", desc, bits, quieted))
+				}
+				if !wantSig && bits != 0 {
+					bad = append(bad, fmt.Sprintf("%s: a quiet NaN must propagate silently (flags %#x)", desc, bits))
 				}
 			}
-			if !stored {
-				bad = append(bad, "a signaling NaN is copied without being quieted (Form = NaN)")
-			}
 		}
-	next:
 	}
-	if len(bad) > 0 || checked < 4 {
-		r.bad(key, w.pos(f.Pos()), fmt.Sprintf("%d NaN-selecting paths enumerated: %s", checked, strings.Join(uniqStrings(bad), "; ")))
+	if len(bad) > 0 {
+		r.bad(key, w.pos(f.Pos()), strings.Join(uniqStrings(bad), "; "))
 	} else {
-		r.ok(key, w.pos(f.Pos()), fmt.Sprintf("%d NaN-selecting paths enumerated: sNaN(x) > sNaN(y) > NaN(x) > NaN(y); signaling ⇒ InvalidOperation + quieted, quiet ⇒ no flag", checked), true)
+		r.ok(key, w.pos(f.Pos()), fmt.Sprintf("%d operand-form combinations evaluated over the finite domain {sNaN, NaN, other} × {nil, sNaN, NaN, other}: sNaN(x) > sNaN(y) > NaN(x) > NaN(y); signaling ⇒ InvalidOperation + quieted, quiet ⇒ no flag", checked), true)
 	}
+}
+
+func formName(v, sn, qn int64) string {
+	switch v {
+	case sn:
+		return "sNaN"
+	case qn:
+		return "NaN"
+	}
+	return "other"
 }
